@@ -11,10 +11,34 @@ theorem mkcalendarU_error (cfg : Cfg) (rights : Rights) (user : String) (s : Sto
   unfold mkcalendarU; simp only []; repeat' split
   all_goals simp [forbiddenNA]
 
+theorem putWholeU_error (cfg : Cfg) (rights : Rights) (user : String) (p body target raw nm imc) :
+    (putWholeU cfg rights user p body target raw nm imc).1.status ≥ 400 → (putWholeU cfg rights user p body target raw nm imc).2 = none := by
+  unfold putWholeU; simp only []; repeat' split
+  all_goals simp [forbiddenNA]
+
+theorem putItemU_error (rights : Rights) (user : String) (p body pc target im raw nm) :
+    (putItemU rights user p body pc target im raw nm).1.status ≥ 400 → (putItemU rights user p body pc target im raw nm).2 = none := by
+  unfold putItemU; simp only []; repeat' split
+  all_goals simp [forbiddenNA]
+
+theorem putDispatch_error (cfg : Cfg) (rights : Rights) (user : String) (p body pc target im raw nm imc) :
+    (putDispatch cfg rights user p body pc target im raw nm imc).1.status ≥ 400 →
+      (putDispatch cfg rights user p body pc target im raw nm imc).2 = none := by
+  unfold putDispatch
+  split
+  · exact putWholeU_error cfg rights user p body target raw nm imc
+  · exact putItemU_error rights user p body pc target im raw nm
+
 theorem putU_error (cfg : Cfg) (rights : Rights) (user : String) (s : Store) (p body im raw nm imc) :
     (putU cfg rights user s p body im raw nm imc).1.status ≥ 400 → (putU cfg rights user s p body im raw nm imc).2 = none := by
-  unfold putU; simp only []; repeat' split
-  all_goals simp [forbiddenNA]
+  unfold putU
+  split
+  · simp [forbiddenNA]
+  · split
+    · simp
+    · split
+      · simp
+      · exact putDispatch_error cfg rights user p body _ _ im raw nm imc
 
 theorem deleteU_error (cfg : Cfg) (rights : Rights) (user : String) (s : Store) (p im) :
     (deleteU cfg rights user s p im).1.status ≥ 400 → (deleteU cfg rights user s p im).2 = none := by
